@@ -53,6 +53,7 @@ type Chain struct {
 	Reqs      []string
 	nreq      uint64
 	subs      []*logSub
+	GSIndex   uint32 // current guardian set index on chain
 	Hold      map[string]chan struct{}
 	HoldSkip  map[string]int // let this many calls through before holding
 	parked    int
@@ -70,6 +71,25 @@ type logSub struct {
 	notifier *rpc.Notifier
 	sub      *rpc.Subscription
 	crit     filters.FilterCriteria
+}
+
+// GuardianKeys: the keys of the guardian set with index i on the simulated chain (three keys, different for every index).
+func GuardianKeys(i uint32) []common.Address {
+	var out []common.Address
+	for k := 0; k < 3; k++ {
+		var a common.Address
+		a[0], a[1], a[19] = 0x11, byte(i), byte(k+1)
+		out = append(out, a)
+	}
+	return out
+}
+
+// Rotate installs the next guardian set on the chain.
+func (c *Chain) Rotate() uint32 {
+	c.mu.Lock()
+	defer c.mu.Unlock()
+	c.GSIndex++
+	return c.GSIndex
 }
 
 func NewChain(head uint64) *Chain {
@@ -224,9 +244,13 @@ func (s *Service) Call(ctx context.Context, args callArgs, blockNr *rpc.BlockNum
 	}
 	switch m.Name {
 	case "getCurrentGuardianSetIndex":
-		return m.Outputs.Pack(uint32(0))
+		s.C.mu.Lock()
+		defer s.C.mu.Unlock()
+		return m.Outputs.Pack(s.C.GSIndex)
 	case "getGuardianSet":
-		return m.Outputs.Pack(ethabi.StructsGuardianSet{Keys: []common.Address{common.HexToAddress("0x1111111111111111111111111111111111111111")}, ExpirationTime: 0})
+		s.C.mu.Lock()
+		defer s.C.mu.Unlock()
+		return m.Outputs.Pack(ethabi.StructsGuardianSet{Keys: GuardianKeys(s.C.GSIndex), ExpirationTime: 0})
 	}
 	return nil, fmt.Errorf("verif sim: unknown method %s", m.Name)
 }
